@@ -72,6 +72,9 @@ package node
 //@ interface val.Value.String() string
 //@   assigns nothing
 //@   ensures result === strOf(self)
+//@ interface val.Value.Format() val.Format
+//@   assigns nothing
+//@   ensures result == fmtOf(self)
 //@ pure goValOf(v val.Value) interface{}
 //@ interface val.Value.Value() interface{}
 //@   assigns nothing
@@ -712,3 +715,53 @@ package node
 //@   ensures insertStarts <= old(insertStarts) + 1
 //@   ensures insertStarts == old(insertStarts) ==> result != nil
 //@   ensures insertStarts == old(insertStarts) + 1 ==> nodeWrites >= old(nodeWrites) + 1
+
+// ---- C16: comparisons in when / where / filter -----------------------------------------------------------------
+// the schema lookup, the conversion of the literal and the read of the leaf are abstracted (deterministic, no writes);
+// what is verified is the comparison itself: exact for every ordered scalar type, false for an unset leaf, an error
+// (never a crash) for an unknown operator or incomparable values
+//@ func (sel *Selection) Find(path string) (*Selection, error)
+//@   trusted
+//@   assigns open, failed, nodeWrites, writesAfterFail, fieldWrites, fieldPostChecks, nonNavChecks, sel.Constraints.compiled
+//@   ensures nodeWrites == old(nodeWrites) && open == old(open)
+//@   ensures result0 != nil ==> result1 == nil && wfS(result0)
+//@ func (sel *Selection) Get() (val.Value, error)
+//@   trusted
+//@   assigns open, failed, nodeWrites, writesAfterFail, fieldWrites, fieldPostChecks, nonNavChecks, sel.Constraints.compiled
+//@   ensures nodeWrites == old(nodeWrites) && open == old(open)
+
+//@ pure typeOfDef(m meta.HasType) *meta.Type
+//@ interface meta.HasType.Type() *meta.Type
+//@   assigns nothing
+//@   ensures result == typeOfDef(self)
+
+//@ macro cmpOK(a val.Value, b val.Value) bool = a != nil && b != nil && ordered(a) && sameDyn(a, b) && notNaN(a) && notNaN(b) && enumRange(a) && enumRange(b)
+//@ func (xp xpathImpl) resolveOperator(oper *xpath.Operator, ident string, s *Selection) (bool, error)
+//@   mode int
+//@   property C16 C13
+//@   requires oper != nil && wfS(s) && dyn(s.Path.Meta) == meta.HasDefinitions
+//@   check [unsetIsFalse] result1 == nil && (a == nil || b == nil) ==> !result0
+//@   check [eq] result1 == nil && cmpOK(a, b) && oper.Oper == "=" ==> result0 == (cmpv(a, b) == 0)
+//@   check [ne] result1 == nil && cmpOK(a, b) && oper.Oper == "!=" ==> result0 == (cmpv(a, b) != 0)
+//@   check [lt] result1 == nil && cmpOK(a, b) && oper.Oper == "<" ==> result0 == (cmpv(a, b) < 0)
+//@   check [le] result1 == nil && cmpOK(a, b) && oper.Oper == "<=" ==> result0 == (cmpv(a, b) <= 0)
+//@   check [gt] result1 == nil && cmpOK(a, b) && oper.Oper == ">" ==> result0 == (cmpv(a, b) > 0)
+//@   check [ge] result1 == nil && cmpOK(a, b) && oper.Oper == ">=" ==> result0 == (cmpv(a, b) >= 0)
+//@   check [knownOperator] result1 == nil && a != nil && b != nil ==> oper.Oper == "=" || oper.Oper == "!=" || oper.Oper == "<" || oper.Oper == "<=" || oper.Oper == ">" || oper.Oper == ">="
+//@   ensures nodeWrites == old(nodeWrites) && open == old(open)
+
+// where: entries of the list the read started at are visible exactly when the predicate holds; everything else passes
+//@ pure xpredHolds(s *Selection, p *xpath.Path) bool
+//@ func (sel *Selection) XPredicate(p *xpath.Path) (bool, error)
+//@   trusted
+//@   assigns open, failed, nodeWrites, writesAfterFail, fieldWrites, fieldPostChecks, nonNavChecks
+//@   ensures nodeWrites == old(nodeWrites) && open == old(open)
+//@   ensures result1 == nil ==> result0 == xpredHolds(sel, p)
+//@ func (w *Where) CheckListPostConstraints(r ListRequest, child *Selection, key []val.Value) (bool, bool, error)
+//@   mode int
+//@   property C16
+//@   requires w != nil && child != nil
+//@   ensures result0
+//@   ensures !(r.Base != nil && r.Base.Meta == r.Meta && child.InsideList) ==> result1 && result2 == nil
+//@   ensures (r.Base != nil && r.Base.Meta == r.Meta && child.InsideList) && result2 == nil ==> result1 == xpredHolds(child, w.xpathFilter)
+//@   ensures nodeWrites == old(nodeWrites) && open == old(open)
